@@ -266,5 +266,8 @@ def _get_action_form_arguments(left, right):
 
     if isinstance(left, BaseForm):
         coefficients += left.coefficients()
+    elif isinstance(left, BaseCoefficient):
+        # `left` is a Coefficient in V (= V**) acting on a one-form
+        coefficients += (left,)
 
     return arguments, coefficients
